@@ -16,8 +16,9 @@ THEOREMS = ['C12_trunc_safe', 'C12_key_mismatch_miss', 'C12_key_injective', 'C12
             'C12_used_files_changed_miss', 'C12_body_integrity', 'C12_byte_edit_miss', 'C12_read_after_write',
             'C12_construct_spec', 'C12_history_inv', 'C12_cut_pickle_miss', 'C12_concat_framing_refuted', 'C12_unhashable_are_objects',
             'C12_unhashable_reapplied_refuted', 'C12_instance_ideal', 'C12_instance_rest', 'C12_instance_prefix_fails', 'C12_example_history',
-            'C12_example_history_inv']
-GEN_DEPS = ['CacheKey']
+            'C12_example_history_inv', 'C12_write_calls_file', 'C12_crash_anywhere_miss_or_correct', 'C12_crash_plain_prefix',
+            'C12_crash_atomic_old', 'C12_history_crashpoints_inv', 'C12_example_history_crashpoints', 'C12_example_history_crashpoints_inv']
+GEN_DEPS = ['CacheKey', 'Printable']
 RULE = ('real cache files of a pool of LALR grammars (imports of local files and of the bundled common.lark, hashed and '
         'run-time options): (1) bytes written vs the model write (header = sha256 hex of the repr-framed key, space, sha256 '
         'hex of the body, newline, two pickles located with pickletools); (2) every/sampled truncation offset; (3) single-byte '
@@ -30,7 +31,8 @@ RULE = ('real cache files of a pool of LALR grammars (imports of local files and
         'non-trivial = distinct damaged-file case, or distinct history containing both a hit and a rebuild')
 TRUSTED_BASE = ['cache section of Lark.__init__, _bytes_digest, sha256_digest, verify_used_files, FS.open, Lark.save pinned by exact '
                 'AST templates in translator/gen_cache.py; key framing, unhashable and _LOAD_ALLOWED_OPTIONS regenerated',
-                'Python repr() of str modelled for ASCII text only (Cache/PyRepr.v); non-ASCII grammars are outside the byte-level tie',
+                'Python repr() of str modelled for every str (UTF-8 representation, Cache/PyRepr.v); str.isprintable is a table regenerated from the running interpreter (Gen/Printable.v)',
+                'crash points replayed in-process: FS.open runs with lark.utils.open shadowed by an unbuffered file that raises a BaseException at the crash point; the atomicwrites branch runs against a stand-in package (temporary file + os.replace)',
                 'executable SHA-256 of Cache/Sha256.v uses primitive 63-bit integers under vm_compute (correspondence only; '
                 'the theorems are about an abstract digest)',
                 'hit/miss observed by wrapping Lark._load; used files observed by wrapping lark.lark.load_grammar']
@@ -39,9 +41,9 @@ ASSUMPTIONS = ['sha256 is idealised as a collision-free fixed-length digest (pre
                'okenv / resolution_stable: inside the class of file-system states considered, a construction depends on the file '
                'system only through the text of the files it records (violated on the implementation by F11, F16, F17)',
                'runtime_reapplied: options left out of the key are re-applied on load (violated by F15: edit_terminals, postlex.always_accept)',
-               'a crashed non-atomic write leaves a prefix of the new content (atomicwrites is not installed here)']
+               'operating-system model of one regular file: open(wb) truncates, write(2) lands at the writer\'s own offset (a crash leaves a prefix: now a theorem, C12_crash_plain_prefix); atomicwrites = rename on close']
 
-IMPORTS = 'From Coq Require Import Uint63.\nFrom LV Require Import Cache.Bytes Cache.PyRepr Gen.CacheKey Cache.Cache Cache.Sha256 Cache.CacheCheck.'
+IMPORTS = 'From Coq Require Import Uint63.\nFrom LV Require Import Cache.Bytes Cache.PyRepr Gen.CacheKey Cache.Cache Cache.Sha256 Cache.WritePath Cache.CacheCheck.'
 UNHASHABLE = ('transformer', 'postlex', 'lexer_callbacks', 'edit_terminals', '_plugins')   # the property's own reading
 
 
@@ -444,12 +446,17 @@ def BL(b):
 def coq_cfg(world, ev, items, text=None):
     ver = ev.get('version') or world.probe.version0
     pv = repr(tuple(ev.get('pyver') or world.probe.vi0[:2]))
-    return '(mk %s %s %s %s)' % (S(text if text is not None else grammar_text(world, ev)), LT(['(%s, %s)' % (S(k), S(v)) for k, v in items], SS), S(ver), S(pv))
+    return '(mk %s %s %s %s)' % (U8(text if text is not None else grammar_text(world, ev)), LT(['(%s, %s)' % (U8(k), U8(v)) for k, v in items], SS), U8(ver), S(pv))
+
+
+def U8(s):
+    """a Python str as the model sees it: its UTF-8 encoding (a lone surrogate as the three bytes of its code point)"""
+    return S(s.encode('utf8', 'surrogatepass').decode('latin1'))
 
 
 def ascii_ok(world, ev, items, text=None):
-    t = text if text is not None else grammar_text(world, ev)
-    return t.isascii() and all(k.isascii() and v.isascii() for k, v in items)
+    """since round 12 the model's repr() covers every str: nothing is left out of the byte-level tie"""
+    return True
 
 
 class Tables:
@@ -473,7 +480,7 @@ class Tables:
         out = []
         for pu in self.pu:
             u = pickle.loads(pu)
-            out.append('(%s, %s)' % (BL(pu), LT(['(%s, %s)' % (S(path_str(p)), S(h)) for p, h in u.items()], SS)))
+            out.append('(%s, %s)' % (BL(pu), LT(['(%s, %s)' % (U8(path_str(p)), S(h)) for p, h in u.items()], SS)))
         return LT(out, '(blob * list (string * string))')
 
     def coq_td(self):
@@ -493,8 +500,8 @@ class Tables:
         out = []
         for s, p in self.paths.items():
             t = current_text(p)
-            if t is not None and t.isascii():
-                out.append('(%s, %s)' % (S(s), S(t)))
+            if t is not None:
+                out.append('(%s, %s)' % (U8(s), U8(t)))
         return LT(out, SS)
 
 
@@ -883,14 +890,434 @@ def run_history_env(world, hist):
         env = []
         for s, p in seen_paths.items():
             t = current_text(p)
-            if t is not None and t.isascii():
-                env.append('(%s, %s)' % (S(s), S(t)))
+            if t is not None:
+                env.append('(%s, %s)' % (U8(s), U8(t)))
         obs, problems = run_history(world, sub, owner=owner)
         obs[0]['env'] = LT(env, SS)
         obs_all.append(obs[0])
         problems_all += [(st, det, i) for st, det, _ in problems]
     return obs_all, problems_all
 
+
+
+# ------------------------------------------------------------------------------------------------------------
+# crash points of the write block, replayed on the real code (round 12)
+class Crash(BaseException):
+    """stands for the death of the process: not an Exception, so neither `except IOError` in the write block nor
+    `except Exception` in the read block sees it"""
+
+
+class Plan:
+    """where the writer dies: None (it does not), 'before' (before FS.open), or (i, j): after the open, i write calls
+    finished, j bytes of call number i written (i = number of calls: after the last write, before the file is closed)"""
+    def __init__(self, cp):
+        self.cp = cp
+        self.calls = 0          # write calls finished
+        self.opened = 0         # files opened for writing
+        self.modes = []
+        self.intended = []      # the byte strings handed to write(), including the one that was cut
+        self.bodies = []        # what body_f.getvalue() returned (internal observation point of the write block)
+
+    def before_open(self):
+        if self.cp == 'before':
+            raise Crash()
+
+    def at_end(self):
+        if isinstance(self.cp, tuple) and self.calls == self.cp[0]:
+            raise Crash()
+
+
+class CrashFile:
+    """the file object handed to the write block: a real file opened WITH THE MODE THE CODE ASKED FOR, unbuffered, so
+    that the path shows at every moment exactly the bytes that reached the operating system"""
+    def __init__(self, real, plan, own_exit=True):
+        self.real, self.plan, self.own_exit = real, plan, own_exit
+
+    def write(self, b):
+        cp = self.plan.cp
+        self.plan.intended.append(bytes(b))
+        if isinstance(cp, tuple) and self.plan.calls == cp[0]:
+            if cp[1]:
+                self.real.write(bytes(b)[:cp[1]])
+            raise Crash()
+        n = self.real.write(b)
+        self.plan.calls += 1
+        return n
+
+    def __enter__(self):
+        return self
+
+    def __exit__(self, et, ev, tb):
+        self.real.close()
+        if et is None:
+            self.plan.at_end()
+        return False
+
+    def __getattr__(self, name):
+        return getattr(self.real, name)
+
+
+def _shim_open(plan):
+    import builtins
+
+    def shim(name, mode='r', *a, **kw):
+        if any(c in mode for c in 'wax+'):
+            plan.before_open()
+            plan.opened += 1
+            plan.modes.append(mode)
+            kw = dict(kw, buffering=0)
+            return CrashFile(builtins.open(name, mode, *a, **kw), plan)
+        return builtins.open(name, mode, *a, **kw)
+    return shim
+
+
+def _fake_atomicwrites(plan):
+    """the `atomicwrites` package (1.4) as far as FS.open uses it: AtomicWriter.open() writes to a temporary file in the
+    directory of the target, fsyncs, and os.replace()s it over the target when the block is left normally; on an
+    exception the temporary file is removed.  A dying process (Crash) neither renames nor removes."""
+    import contextlib
+    import tempfile
+    import types
+
+    class AtomicWriter:
+        def __init__(self, path, mode='w', overwrite=False, **open_kwargs):
+            if 'a' in mode:
+                raise ValueError('Appending to an existing file is not supported')
+            if 'x' in mode:
+                raise ValueError('Use the `overwrite`-parameter instead.')
+            if 'w' not in mode:
+                raise ValueError('AtomicWriters can only be written to.')
+            self._path, self._mode, self._overwrite, self._open_kwargs = os.fspath(path), mode, overwrite, open_kwargs
+
+        def open(self):
+            return self._open()
+
+        @contextlib.contextmanager
+        def _open(self):
+            plan.before_open()
+            plan.opened += 1
+            plan.modes.append(self._mode)
+            fd, name = tempfile.mkstemp(prefix='tmp', dir=os.path.normpath(os.path.dirname(self._path)))
+            os.close(fd)
+            import builtins
+            real = builtins.open(name, self._mode, buffering=0, **self._open_kwargs)
+            f = CrashFile(real, plan, own_exit=False)
+            ok = False
+            try:
+                yield f
+                plan.at_end()
+                real.flush()
+                os.fsync(real.fileno())
+                real.close()
+                if self._overwrite:
+                    os.replace(name, self._path)
+                else:
+                    os.link(name, self._path)
+                    os.unlink(name)
+                ok = True
+            except Crash:
+                ok = True            # the process is dead: no rollback
+                real.close()
+                raise
+            finally:
+                if not ok:
+                    real.close()
+                    try:
+                        os.unlink(name)
+                    except OSError:
+                        pass
+
+    def atomic_write(path, writer_cls=AtomicWriter, **cls_kwargs):
+        return writer_cls(path, **cls_kwargs).open()
+    m = types.ModuleType('atomicwrites')
+    m.AtomicWriter, m.atomic_write = AtomicWriter, atomic_write
+    return m
+
+
+_MISSING = object()
+
+
+def construct_with(world, ev, sem, cp):
+    """Lark(..., cache=path) with FS.open taking its plain branch (sem='plain') or its atomicwrites branch (sem='atomic',
+    a stand-in package), the writer dying at crash point cp.  Returns (died, result of World.construct or None, plan)."""
+    import io
+    import lark.utils as U
+    import lark.lark as LL
+    plan = Plan(cp)
+    saved = {k: U.__dict__.get(k, _MISSING) for k in ('open', '_has_atomicwrites', 'atomicwrites')}
+    saved_io = LL.io
+
+    class RecBytesIO(io.BytesIO):
+        def getvalue(self):
+            v = io.BytesIO.getvalue(self)
+            plan.bodies.append(v)
+            return v
+
+    class IOProxy:
+        BytesIO = RecBytesIO
+
+        def __getattr__(self, name):
+            return getattr(io, name)
+    LL.io = IOProxy()
+    U.open = _shim_open(plan)
+    U._has_atomicwrites = (sem == 'atomic')
+    if sem == 'atomic':
+        U.atomicwrites = _fake_atomicwrites(plan)
+    try:
+        try:
+            return False, world.construct(ev, cached=True), plan
+        except Crash:
+            return True, None, plan
+    finally:
+        LL.io = saved_io
+        for k, v in saved.items():
+            if v is _MISSING:
+                U.__dict__.pop(k, None)
+            else:
+                setattr(U, k, v)
+        # temporary files a dead atomic writer left behind
+        d = world.root
+        for fn in os.listdir(d):
+            if fn.startswith('tmp') and os.path.isfile(os.path.join(d, fn)):
+                os.remove(os.path.join(d, fn))
+
+
+def coq_cp(cp):
+    if cp is None:
+        return '(@None cpoint)'
+    if cp == 'before':
+        return '(Some CBeforeOpen)'
+    return '(Some (CInWrite %s %s))' % (N(cp[0]), N(cp[1]))
+
+
+def stream_crashpoints(ctx, probe):
+    """every boundary and sampled interior points of the write block, under both branches of FS.open, from several
+    initial states of the path; then a later reader.  Property oracle: the later reader gets the uncached parser and leaves
+    a valid file; correspondence: file bytes after the crash and after the reader, hit/miss = WritePath.step2."""
+    rng = ctx.rng
+    P = {e[0]: e for e in pool()}
+    subjects = [(P['imp-y'], P['imp-x']), (P['ab'], P['words']), (P['common'], P['ab-keep'])]
+    if not ctx.thorough() and not ctx.widen:
+        subjects = subjects[:1]
+    cases, meta = [], []
+    for si, (entry, other) in enumerate(subjects):
+        world = World(ctx, probe, 'cp%d' % si)
+        ev, ev_other = mk_event(entry), mk_event(other)
+        # the complete files of both configurations (files of `entry` last: they are the ones on disk afterwards)
+        obs_o, _ = run_history(world, {'f0': None, 'events': [ev_other]})
+        F_other = obs_o[0]['final']
+        obs, problems = run_history(world, {'f0': None, 'events': [ev]})
+        F = obs[0]['final']
+        sp = split_file(F)
+        if sp is None or split_file(F_other) is None or problems:
+            ctx.violation('crashpoint:no-file', {'kind': 'history', 'hist': {'f0': None, 'events': [ev]}}, True,
+                          'construction with cache= left no complete cache file')
+            continue
+        hdr, pu, pd = sp
+        calls = [hdr + b'\n', pu + pd]
+        H, Bn = len(calls[0]), len(calls[1])
+        inits = [('absent', None), ('stale-other', F_other), ('stale-longer', F_other + F), ('stale-short', F_other[:H + 3]),
+                 ('own-prefix', F[:H + 1 + len(pu)])]
+        cps = ['before', (0, 0), (0, 1), (0, 64), (0, 65), (0, H - 1), (1, 0), (1, 1), (1, len(pu)), (1, Bn - 1), (2, 0)]
+        interior = [rng.choice([(0, rng.randrange(2, H - 1)), (1, rng.randrange(2, Bn - 1))])]
+        if ctx.thorough() or ctx.widen:
+            interior += [(0, rng.randrange(2, H - 1)) for _ in range(3)] + [(1, rng.randrange(2, Bn - 1)) for _ in range(6)]
+        for sem in ('plain', 'atomic'):
+            todo = []
+            if ctx.thorough() or ctx.widen:
+                todo = [(ini, cp) for ini in inits for cp in cps + interior]
+            else:      # every boundary under each branch of FS.open, the initial states taken in turn
+                allc = cps + interior
+                r0 = rng.randrange(len(inits))
+                todo = [(inits[(k + r0) % len(inits)], cp) for k, cp in enumerate(allc)]
+            for (iname, f0), cp in todo:
+                world.write('cache.bin', f0)
+                world.set_files(ev.get('files'))
+                died, c, plan = construct_with(world, ev, sem, cp)
+                after = world.read('cache.bin')
+                wit = {'kind': 'crashpoint', 'ev': ev, 'sem': sem, 'cp': list(cp) if isinstance(cp, tuple) else cp,
+                       'f0': f0.hex() if f0 is not None else None}
+                ctx.count('crash-points', key=(entry[0], sem, iname, cp), nontrivial=True, fs_open=sem, initial=iname,
+                          crash_at=('before-open' if cp == 'before' else 'call%d%s' % (cp[0], '' if cp[1] else '-start')))
+                if not died:
+                    ctx.violation('correspondence:crash point not reached',
+                                  {'no_longer_checks': 'the write block performs open + %d write calls' % len(calls), **wit}, False,
+                                  'the writer was to die at %r but the construction finished (%d write calls seen, modes %r)'
+                                  % (cp, plan.calls, plan.modes))
+                    continue
+                tabs = Tables()
+                for d in (F, F_other, f0, after):
+                    if d is not None:
+                        tabs.add(d)
+                if plan.bodies and plan.intended:
+                    tabs.add(plan.intended[0] + plan.bodies[-1])
+                env_crash = tabs.coq_env()
+                # ---- the property: a later reader (same configuration, then the other one) -----------------
+                # the stream this very writer was producing (the pickles differ from build to build: LALR state numbers)
+                if plan.bodies and plan.intended:
+                    F_int = plan.intended[0] + plan.bodies[-1]
+                    if len(plan.bodies) != 1 or b''.join(plan.intended) != F_int[:sum(map(len, plan.intended))]:
+                        ctx.violation('correspondence:write block', {'no_longer_checks': 'write calls = header line, then body_f.getvalue()', **wit},
+                                      False, 'the byte strings handed to f.write are not a prefix of header line + assembled body')
+                else:
+                    F_int = F
+                complete = after == F_int
+                sub = {'f0': after.hex() if after is not None else None, 'events': [ev], 'f0_is_cache_of_first': complete}
+                if f0 is not None and after == f0 and f0 == F_other:
+                    sub = {'f0': after.hex(), 'events': [ev_other, ev], 'f0_is_cache_of_first': True}
+                o2, problems = run_history_env(world, sub)
+                for stage, det, i in problems:
+                    ctx.violation('crashpoint:' + stage, wit, True,
+                                  'writer of %r died at %r under %s open (path was %s); later reader: %s' % (entry[0], cp, sem, iname, det))
+                if not problems and not check_valid_after(world, ev):
+                    ctx.violation('crashpoint:not-replaced', wit, True,
+                                  'after a writer died at %r (%s) the next construction did not leave a valid cache' % (cp, sem))
+                # ---- the model ----------------------------------------------------------------------------------
+                for o in o2:
+                    if o['after'] is not None:
+                        tabs.add(o['after'])
+                idx = tabs.add(F_int)
+                items = obs[0]['items']
+                if idx is None:
+                    continue
+                if not ascii_ok(world, ev, items) or not ascii_ok(world, ev_other, obs_o[0]['items']):
+                    continue
+                sem_c = 'Plain' if sem == 'plain' else 'Atomic'
+                comp = F_int if (after is not None and len(after) <= len(F_int) and F_int.startswith(after) and after != f0) else None
+                evs = ['(mkHev2 %s %s %s %s (Some (%s, %s)) false %s)' % (
+                    coq_cfg(world, ev, items), env_crash, sem_c, coq_cp(cp), N(idx[0]), N(idx[1]),
+                    'None' if after is None else '(Some %s)' % tabs.fileref(after, comp))]
+                for e2, o in zip(sub['events'], o2):
+                    built = 'None'
+                    if o['wrote']:
+                        j = tabs.add(o['after'])
+                        if j is None:       # not a well-formed file: already reported by the oracle
+                            evs = None
+                            break
+                        built = '(Some (%s, %s))' % (N(j[0]), N(j[1]))
+                    evs.append('(mkHev2 %s %s %s (@None cpoint) %s %s %s)' % (
+                        coq_cfg(world, e2, o['items'], o['gtext']), o['env'], sem_c, built, 'true' if o['hit'] else 'false',
+                        'None' if o['final'] is None else '(Some %s)' % tabs.fileref(o['final'])))
+                if evs is None:
+                    continue
+                f0c = '(@None fileref)' if f0 is None else '(Some %s)' % tabs.fileref(f0)
+                cases.append('(%s, %s, %s, %s)' % (tabs.coq_tu(), tabs.coq_td(), f0c, LT(evs, 'hev2')))
+                meta.append(wit)
+    ctx.sample({'stream': 'crash-points', 'example': meta[0] if meta else None})
+    bad, errs = ctx.coq_bad_indices('c12cp', IMPORTS, 'check_hist2', cases, chunk=ctx.scale(6, 12))
+    for e in errs:
+        ctx.violation('correspondence:coq-eval', {'error': e}, False, e[:300])
+    for i in bad:
+        w = meta[i]
+        ctx.violation('correspondence:WritePath.step2 vs the write block of Lark.__init__ dying at a crash point',
+                      {'no_longer_checks': 'file bytes after the crash and after the next construction, hit/miss', **w}, False,
+                      'writer died at %r under %s open: model and implementation disagree on the bytes left on the path or on hit/miss '
+                      'of the later reader; the property oracle held' % (w['cp'], w['sem']))
+
+
+# ------------------------------------------------------------------------------------------------------------
+# repr() of the strings that reach the cache key, byte for byte (round 12)
+REPR_ALPHABET = ("ab Z09_'\"\\" + "\x00\x01\x07\x08\t\n\x0b\r\x1b\x1f\x7f" + "\x80\x85\x9f\xa0\xa1\xad\xe9\xff" +
+                 "Ā́͸͹​  ‮　日퟿﻿�￾￿" +
+                 "\U00010000\U0001d11e\U0001f600\U0002fa1d\U000e0001\U000e01ef\U000f0000\U0010ffff")
+REPR_FIXED = ["", "'", '"', "'\"", "\\", "\\'", "it's", 'say "hi"', "both ' and \"", "\\x80", "\x80", "\\u200b", "​",
+              "\\n", "\n", "é", "\xe9", "\x7f", "\x7e", "\x1f", " ", "\xa0", "\xad", "\xac", "ͷ͸", "￿\U00010000",
+              "\ud800", "\udfff", "a\udc80b", "\U0010ffff", "\U000e0000\U000e0001", "tab\there", "'" * 3 + '"', "(', ')", "[('k', 'v')]"]
+
+
+def unicode_configs():
+    """(name, grammar, extra options, probes): the same small language, the key differs in characters that repr() must keep apart"""
+    base = 'start: "a" "b"'
+    C = []
+    for i, tail in enumerate([" // it's", ' // say "hi"', " // ' and \"", " // back\\slash \\x80 \\u200b \\n", " // ctl \x00\x01\x1f\x7f\t\r",
+                              " // latin \x80\x9f\xa0\xad\xe9\xff", " // bmp ͸​ 日﻿￿ é",
+                              " // astral \U0001f600\U000e0001\U0010ffff\U0001d11e"]):
+        C.append(('u-g%d' % i, base + tail + '\n', [], ['ab', 'a']))
+    for i, sp in enumerate(["it's.lark", 'q"q.lark', "d\xe9j\xe0/日本.lark", "z​w\x80.lark", "back\\slash\t.lark", "\U0001f600\U000e0001.lark"]):
+        C.append(('u-sp%d' % i, base + '\n', [['source_path', sp]], ['ab', 'a']))
+    C.append(('u-ip', base + '\n', [['import_paths', ["it's", 'q"q', "\xe9\x80​\U0001f600", "b\\s"]]], ['ab', 'a']))
+    C.append(('u-term', 'start: "\xe9" "日" "\U0001f600"\n', [], ['\xe9日\U0001f600', 'e']))
+    return C
+
+
+def stream_repr(ctx, probe):
+    rng = ctx.rng
+    # ---- 1. the function itself ---------------------------------------------------------------------------------
+    strs = list(REPR_FIXED) + [c for c in REPR_ALPHABET]
+    for _ in range(ctx.scale(120, 1500)):
+        strs.append(''.join(rng.choice(REPR_ALPHABET) for _ in range(rng.randint(1, 10))))
+    for _ in range(ctx.scale(20, 300)):       # code points taken anywhere, surrogates included
+        strs.append(''.join(chr(rng.choice([rng.randrange(0x80, 0x100), rng.randrange(0x100, 0x3000), rng.randrange(0xd7f0, 0xe010),
+                                            rng.randrange(0xfff0, 0x10010), rng.randrange(0x10000, 0x110000)])) for _ in range(rng.randint(1, 4))))
+    strs = list(dict.fromkeys(strs))
+    cases = []
+    for t in strs:
+        r = repr(t)
+        cases.append('(%s, %s)' % (U8(t), U8(r)))
+        kinds = set()
+        for ch in t:
+            o = ord(ch)
+            kinds.add('quote' if ch in '\'"' else 'backslash' if ch == '\\' else 'tnr' if ch in '\t\n\r' else
+                      'ascii-ctl' if o < 32 or o == 127 else 'ascii' if o < 127 else
+                      ('printable' if ch.isprintable() else 'escaped') + ('-latin1' if o < 256 else '-bmp' if o < 65536 else '-astral'))
+        ctx.count('repr', key=t, nontrivial=bool(kinds - {'ascii'}), **{'repr_' + k.replace('-', '_'): True for k in kinds})
+    bad, errs = ctx.coq_bad_indices('c12rp', IMPORTS, 'check_repr', cases, chunk=400)
+    for e in errs:
+        ctx.violation('correspondence:coq-eval', {'error': e}, False, e[:300])
+    for i in bad:
+        ctx.violation('correspondence:PyRepr.srepr vs repr()', {'no_longer_checks': 'byte-for-byte repr of str', 'string': ascii(strs[i])}, False,
+                      'the model of repr() differs from Python on %s' % ascii(strs[i]))
+    ctx.sample({'stream': 'repr', 'string': ascii(strs[len(REPR_FIXED) + len(REPR_ALPHABET)]), 'repr': ascii(repr(strs[len(REPR_FIXED) + len(REPR_ALPHABET)]))})
+    # ---- 2. the real cache key of configurations with such characters, and A,B,B,A histories on pairs of them --------
+    U = unicode_configs()
+    kcases, kmeta = [], []
+    for name, g, extra, probes in (U if ctx.thorough() or ctx.widen else rng.sample(U, 6)):
+        world = World(ctx, probe, 'uk')
+        ev = mk_event((name, g, extra, {}, probes))
+        obs, problems = run_history_env(world, {'f0': None, 'events': [ev, ev]})
+        for stage, det, i in problems:
+            ctx.violation('unicode-key:' + stage, {'kind': 'history', 'hist': {'f0': None, 'events': [ev, ev]}}, True, det)
+        F = obs[0]['final']
+        ctx.count('unicode-keys', key=name, nontrivial=True)
+        if F is None or len(F) < 64 or problems:
+            continue
+        if not obs[1]['hit']:
+            ctx.violation('unicode-key:unused', {'kind': 'history', 'hist': {'f0': None, 'events': [ev, ev]}, 'expect_hit': True}, True,
+                          'a complete, current cache file was not used')
+        kcases.append('(%s, %s)' % (coq_cfg(world, ev, obs[0]['items']), S(F[:64].decode('latin1'))))
+        kmeta.append(ev)
+    bad, errs = ctx.coq_bad_indices('c12uk', IMPORTS, 'check_keyd', kcases, chunk=8)
+    for e in errs:
+        ctx.violation('correspondence:coq-eval', {'error': e}, False, e[:300])
+    for i in bad:
+        ctx.violation('correspondence:Cache.key vs cache_sha256 of Lark.__init__',
+                      {'no_longer_checks': 'sha256 of the repr-framed key = digest in the header', 'kind': 'history',
+                       'hist': {'f0': None, 'events': [kmeta[i]]}}, False,
+                      'the digest at the start of the header is not sha256 of the model key for %r' % kmeta[i]['name'])
+    pairs = [(0, 1), (3, 5), (9, 11), (8, 13)]
+    if not ctx.thorough() and not ctx.widen:
+        pairs = [pairs[rng.randrange(len(pairs))]]
+    hcases, hmeta = [], []
+    for a, b in dict.fromkeys(pairs):
+        ea, eb = (mk_event((U[i][0], U[i][1], U[i][2], {}, U[i][3])) for i in (a, b))
+        hist = {'f0': None, 'events': [ea, eb, eb, ea]}
+        world = World(ctx, probe, 'uh')
+        obs, problems = run_history_env(world, hist)
+        for stage, det, i in problems:
+            ctx.violation('unicode-history:' + stage, {'kind': 'history', 'hist': {'f0': None, 'events': hist['events'][:i + 1]}}, True, det)
+        hits = sum(1 for o in obs if o['hit'])
+        ctx.count('unicode-histories', key=(U[a][0], U[b][0]), nontrivial=(0 < hits < len(obs)), hits=hits)
+        c = coq_history(world, hist, obs)
+        if c is not None:
+            hcases.append(c)
+            hmeta.append(hist)
+    bad, errs = ctx.coq_bad_indices('c12uh', IMPORTS, 'check_hist', hcases, chunk=1)
+    for e in errs:
+        ctx.violation('correspondence:coq-eval', {'error': e}, False, e[:300])
+    for i in bad:
+        ctx.violation('correspondence:Cache.run vs histories of Lark(..., cache=path)',
+                      {'no_longer_checks': 'hit/miss and file bytes after every event', 'kind': 'history', 'hist': hmeta[i]}, False,
+                      'model and implementation disagree on a history over keys with non-ASCII / escaped characters')
 
 # ------------------------------------------------------------------------------------------------------------
 # known findings: fixed histories outside the class where the theorems' hypotheses hold
@@ -935,14 +1362,37 @@ def correspond(ctx):
     probe = Probe()
     try:
         stream_exotic(ctx, probe)
+        stream_crashpoints(ctx, probe)
+        stream_repr(ctx, probe)
         stream_histories(ctx, probe)
         stream_write_and_damage(ctx, probe)
     finally:
         probe.close()
 
 
+def replay_crashpoint(ctx, w):
+    """the writer dies at the recorded crash point; true iff a later reader is then served wrongly / the file is not repaired"""
+    probe = Probe()
+    try:
+        world = World(ctx, probe, 'replaycp')
+        ev = w['ev']
+        world.write('cache.bin', bytes.fromhex(w['f0']) if w.get('f0') is not None else None)
+        world.set_files(ev.get('files'))
+        cp = tuple(w['cp']) if isinstance(w['cp'], list) else w['cp']
+        died, c, plan = construct_with(world, ev, w['sem'], cp)
+        after = world.read('cache.bin')
+        complete = bool(plan.bodies and plan.intended and after == plan.intended[0] + plan.bodies[-1])
+        sub = {'f0': after.hex() if after is not None else None, 'events': [ev], 'f0_is_cache_of_first': complete}
+        obs, problems = run_history_env(world, sub)
+        return bool(problems) or not check_valid_after(world, ev)
+    finally:
+        probe.close()
+
+
 def replay(ctx, case):
     w = case['witness']
+    if w.get('kind') == 'crashpoint':
+        return replay_crashpoint(ctx, w)
     if w.get('kind') != 'history':
         return False
     probe = Probe()
